@@ -343,7 +343,11 @@ def mem(o, ty):
         sup = ty[2]
         if not isinstance(sup, type):
             return None
-        return type(o) is sup
+        if type(o) is sup:
+            return True
+        # weak clause: pyanalyze documents "allow int for a NewType over int but not a
+        # subtype such as an IntEnum"; instances of subclasses are left undecided
+        return None if isinstance(o, sup) else False
     if tag == "gen":
         return mem_gen(o, ty[1], ty[2])
     if tag == "tuple":
